@@ -4,6 +4,14 @@ import json, os, subprocess
 V = os.path.dirname(os.path.dirname(os.path.abspath(__file__)))
 
 CHECKS = {
+ "C02": dict(level="exploration", design="§3 C02",
+   text="Isolation monitor: every call of run / trace_changes / get_trace_string runs in a worker process under catch_unwind and a step budget (tick hook at 115 loop heads) proportional to |words| x |rules|; the worker publishes the index of the case it is about to run so a case that kills the process is identified and the shard restarted (conservation: assigned = completed + killed). Workload = full-grammar rules, token mutants of the 470 harvested rules, numeric extremes, character noise for rules, words and alias lines, degenerate words; 400 k cases x 2 build profiles (checked = overflow + debug assertions; release) in the quick tier, 12 M x 2 in thorough. Budget exhaustion is retried at 2x (slow = inconclusive) and, for rules with ellipses/optionals, at 64x (superlinear, reported separately from hang).",
+   note="step budget constants calibrated on the unchanged tree (largest observed ticks/budget ratio is reported); wall-clock only as a watchdog whose firing is inconclusive; panics are keyed by (innermost function of the code under test, message class) from the symbolised backtrace",
+   technique="runtime isolation monitor (catch_unwind + step-budget hook + process-death detection) over generated hostile workloads, two build profiles"),
+ "C03": dict(level="exploration", design="§3 C03",
+   text="Reference-interpreter monitor: 89 100 basic-fragment rules (every input x output x single environment with sides of length <= 1 plus an adjoining boundary, as context-only and as exception-only) and a seeded sample of rules with sides <= 2, context and exception together and environment sets, applied by the real interpreter to every word of <= 3-5 segments over an 8-segment inventory in every syllabification, and compared structurally with a 150-line left-to-right reference written from the manual (24 M applications quick, ~1 G thorough). Cases in which equal segments become adjacent are discarded as the property says.",
+   note="oracle = my reference interpreter over raw feature bits (independent of the implementation's matcher); sampled part depends on VERIF_SEED",
+   technique="reference-model runtime monitor, bounded-exhaustive rule x word space"),
  "C04": dict(level="exploration", design="§3 C04",
    text="Reference-model monitor over a finite space enumerated completely: every base phone and base+1-diacritic segment (8 819) x 26 features and 5 place nodes x +/- as matcher and as setter, all 26x26x2 feature alpha pairs, node alphas carried from a context segment over one donor per distinct place value, node-to-feature coercion, and random multi-feature matrices; the real interpreter's structural result (hook) is compared with a 30-line bit model written from the documented layout. 20 M applications in the quick tier.",
    note="oracle = my bit model of the documented feature layout (independent of to_node_mask); observation through the structural hook; match is observed through `> [+stress]` on a one-segment word",
